@@ -82,6 +82,7 @@ type Contract struct {
 
 // GhostSet is one `ghostset target := value [when cond]` clause.
 type GhostSet struct {
+	SuchThat bool
 	Target string
 	Value  *Clause
 	When   *Clause // nil = always
@@ -281,11 +282,19 @@ func parseClause(c *Contract, text, loc string) error {
 		c.Implements = fields[1]
 	case "ghostset":
 		rest := strings.TrimSpace(strings.TrimPrefix(text, "ghostset"))
+		suchThat := false
 		i := strings.Index(rest, ":=")
-		if i < 0 {
-			return fmt.Errorf("%s: ghostset target := value [when cond]", loc)
+		if j := strings.Index(rest, ":|"); j >= 0 && (i < 0 || j < i) {
+			// `ghostset target :| P`: the ghost location takes some value satisfying P (P mentions the location
+			// itself); used where the new value is characterised rather than written down. That such a value
+			// exists is not checked (listed as an assumption).
+			suchThat = true
+			i = j
 		}
-		gs := &GhostSet{Target: strings.TrimSpace(rest[:i])}
+		if i < 0 {
+			return fmt.Errorf("%s: ghostset target := value [when cond]  |  ghostset target :| predicate [when cond]", loc)
+		}
+		gs := &GhostSet{Target: strings.TrimSpace(rest[:i]), SuchThat: suchThat}
 		val := strings.TrimSpace(rest[i+2:])
 		if j := strings.LastIndex(val, " when "); j >= 0 {
 			w, err := mkClause("when", "when", strings.TrimSpace(val[j+6:]), loc)
